@@ -11,6 +11,7 @@ import Proofs.Lemmas.Metadata
 import Proofs.Lemmas.InprocAll
 import Proofs.Lemmas.InprocTlrSrv
 import Proofs.Lemmas.InprocUnaryAll
+import Proofs.Lemmas.HttpServerStream
 
 namespace Metadata
 
@@ -151,3 +152,40 @@ theorem C03_unary_set_header_after_send_fails (s : St) (md : Nat) (hpc : s.pc = 
   simp [step, hpc, hrd, hs]
 
 end InprocUnary
+
+namespace HttpServerStream
+open InprocStream (HErr Reason Res codeOf)
+
+/-- **HTTP server streams: headers and trailers reach the wire complete and in place.** For every
+    request body, every handler program `acts` (any mix of SetHeader / SendHeader / SetTrailer /
+    SendMsg / RecvMsg, encodable or not) with results `rs`, and every return value `e`: if the
+    connection held, the reply is the header block carrying exactly the metadata of the
+    SetHeader/SendHeader calls that returned nil, then data frames only, then one trailer frame
+    carrying every SetTrailer metadata in call order — together with the final status. -/
+theorem C03_http_server_reply_metadata (cs : Bool) (req : List ReqItem) (acts : List Act) (s1 : St) (rs : List Res)
+    (e : Option HErr) (s : St) (r : Res) (h1 : run (init cs req) acts = some (s1, rs)) (h2 : step s1 (.ret e) = some (s, r))
+    (hw : s.writeFailed = false) (hc : s.connBroken = false) :
+    ∃ fs, allData fs = true ∧ s.wire = .head (okHdr acts rs) :: (fs ++ [.trailer (trailerCode e) (trailersSet acts)]) :=
+  reply_complete cs req acts s1 rs e s r h1 h2 hw hc
+
+/-- once the header block is committed (SendHeader or the first SendMsg), SetHeader and SendHeader
+    fail and change nothing -/
+theorem C03_http_server_set_header_after_send_fails (s : St) (md : Nat) (hf : s.finished = false) (hs : s.headersSent = true) :
+    step s (.setHeader md) = some (s, .plainErr) ∧ step s (.sendHeader md) = some (s, .plainErr) := by
+  simp [step, stepLive, hf, hs]
+
+/-- in every reachable state the header block on the wire is the successfully set metadata -/
+theorem C03_http_server_header_block (cs : Bool) (req : List ReqItem) (acts : List Act) (s : St) (rs : List Res)
+    (h : run (init cs req) acts = some (s, rs)) (h' : List Nat) (fs : List Out) (hw : s.wire = .head h' :: fs) :
+    h' = okHdr acts rs := by
+  obtain ⟨hi, _, hh, _⟩ := run_facts req acts (init cs req) s rs (inv_init cs req) h
+  have hwr : s.headWritten = true := by have := hi.hw; simp [hw] at this; exact this
+  have := hi.head hwr
+  simp [hw, init] at this hh
+  rw [this, hh]
+
+-- non-vacuity: a handler that sets a header, sends, sets two trailers and fails with code 5
+example : (run (init true [.data 7 true]) [.recv, .setHeader 1, .send 9 true, .setHeader 2, .setTrailer 3, .setTrailer 4, .ret (some (.status 5))]).map (·.1.wire) =
+    some [.head [1], .data 9, .trailer 5 [3, 4]] := by decide
+
+end HttpServerStream
